@@ -13,7 +13,7 @@ use std::time::{Duration, Instant};
 
 pub static PROP: Prop = Prop {
     id: "C13",
-    rule: "cases, each in a fresh child process (so that first use is really first use): (i) held initialisation: thread A makes the process's first engine call (parse, execute, or a register_* of a fresh or a built-in name); the init probe parks A after registration stage s in {1,2,3} (only prefix operators / prefix+infix / all operators but no functions registered); 1-14 threads B then make their first calls (programs that need the missing tables: 1+2, 2 ++, min(1,2), not true, 1 in [1], - 1; registrations of fresh names and overrides of built-ins min, +, -, ++); after a grace period the harness records which B returned while A was still parked, releases A and joins everything under a watchdog; (ii) free races: 2-16 threads released by one barrier, all making first calls (programs, registrations, and programs nested 120 and 150 levels deep); (iii) registration vs evaluation: thread R re-registers name N (function / prefix / infix / postfix) alternately with handlers h1 and h2 2000-20000 times while 2-8 threads evaluate texts that use N once, twice, in a malformed way (an operator without its operand: must be rejected at every moment), or once after `n += 1` on a fresh context with n = 0 (the result must show n = 1: one evaluation, one handler); after the race every evaluator evaluates once more and must see the handler registered last; a directed variant in which the first invocation of h1 parks until R has registered h2; and a precedence variant in which `hi` alternates between precedence 105 and 125 while the other threads parse `1 + 2 hi 3 * 4 hi 5 + 6` (every tree must be one of the two sequential ones). (v) registration storms: 2, 4 and 8 threads released by one barrier each register fresh names of one kind (infix, postfix, prefix, function) 20000 times while another thread keeps evaluating a built-in program: all return within the watchdog, the evaluations keep their value, every registration is in effect; (iv) fresh-word races: one thread registers 30000 fresh word operators vh_w0, vh_w1 ... (prefix, infix or postfix) one after the other while 1-3 threads are already evaluating programs that spell the word being registered; an evaluation that starts after register_* has returned must read the operator, and afterwards every word is an operator. Oracle: no panic on any thread, all threads joined within the watchdog, every result is one that some sequential order of the calls produces (fixed reference value, or - when an override of the name involved is registered concurrently - the built-in or the override result; for N: every use inside one evaluation shows the same handler, h1 or h2, never an error or another shape), a B thread that returned while A was parked must be correct, and after the join every registration made is in effect (final battery). Non-trivial: (i) at least one B needed a table that was missing while A was parked, (ii) >= 2 different call kinds raced, (iii) an evaluator thread observed both handlers; distinct by (mode, A kind, stage, B kinds / thread count / registry kind and text).",
+    rule: "cases, each in a fresh child process (so that first use is really first use): (i) held initialisation: thread A makes the process's first engine call (parse, execute, or a register_* of a fresh or a built-in name); the init probe parks A after registration stage s in {1,2,3} (only prefix operators / prefix+infix / all operators but no functions registered); 1-14 threads B then make their first calls (programs that need the missing tables: 1+2, 2 ++, min(1,2), not true, 1 in [1], - 1; registrations of fresh names and overrides of built-ins min, +, -, ++); after a grace period the harness records which B returned while A was still parked, releases A and joins everything under a watchdog; (ii) free races: 2-16 threads released by one barrier, all making first calls (programs, registrations, and programs nested 120 and 150 levels deep); (iii) registration vs evaluation: thread R re-registers name N (function / prefix / infix / postfix) alternately with handlers h1 and h2 2000-20000 times while 2-8 threads evaluate texts that use N once, twice, in a malformed way (an operator without its operand: must be rejected at every moment), or once after `n += 1` on a fresh context with n = 0 (the result must show n = 1: one evaluation, one handler); after the race every evaluator evaluates once more and must see the handler registered last; a directed variant in which the first invocation of h1 parks until R has registered h2; and a precedence variant in which `hi` alternates between precedence 105 and 125 while the other threads parse `1 + 2 hi 3 * 4 hi 5 + 6` (every tree must be one of the two sequential ones). (v) registration storms: 2, 4 and 8 threads released by one barrier each register fresh names of one kind (infix, postfix, prefix, function) 300000 times while another thread keeps evaluating a built-in program: all return within the watchdog, the evaluations keep their value, every registration is in effect; (iv) fresh-word races: one thread registers 30000 fresh word operators vh_w0, vh_w1 ... (prefix, infix or postfix) one after the other while 1-3 threads are already evaluating programs that spell the word being registered; an evaluation that starts after register_* has returned must read the operator, and afterwards every word is an operator. Oracle: no panic on any thread, all threads joined within the watchdog, every result is one that some sequential order of the calls produces (fixed reference value, or - when an override of the name involved is registered concurrently - the built-in or the override result; for N: every use inside one evaluation shows the same handler, h1 or h2, never an error or another shape), a B thread that returned while A was parked must be correct, and after the join every registration made is in effect (final battery). Non-trivial: (i) at least one B needed a table that was missing while A was parked, (ii) >= 2 different call kinds raced, (iii) an evaluator thread observed both handlers; distinct by (mode, A kind, stage, B kinds / thread count / registry kind and text).",
     assumptions: &[
         "the harness owns only the interleavings it can force (parking A between init stages through the cfg-guarded probe; parking a handler); other interleavings are sampled by free-running repetition",
         "watchdog: 10 s against milliseconds; an expiry must reproduce on two more runs to count as a deadlock",
@@ -1024,7 +1024,7 @@ fn fixed(env: &Env, st: &mut Stats) -> CaseResult {
     for threads in [2usize, 4, 8] {
         i += 1;
         if env.mine(i) {
-            run_regstorm(threads, env.tier.pick(20_000, 200_000), env, st)?;
+            run_regstorm(threads, env.tier.pick(300_000, 2_000_000), env, st)?;
         }
     }
     // first registrations of fresh word operators racing with parses of the same spelling
